@@ -234,6 +234,9 @@ class World(object):
             return path, None
         if kind == "path":
             return Path(path), None
+        if kind == "missing":
+            # a path string that names no file: accepted by the type check, rejected when opened
+            return path + ".does-not-exist", None
         off = min(off, len(content))
         if kind == "file":
             f = seam.real_open(path, "rb")
